@@ -55,6 +55,28 @@ def handle : Drv.Handler
     pure (match spec c d ps with
       | none => "ok"
       | some b => if b == r then "ok" else s!"variant-does-not-mean-its-name:spec={bstr b}")
+  -- a finished run of a real checker: `early` = some reachable state was not evaluated (simulation: always),
+  -- `D` = the discoveries after join. Stopping early needs a reason; no visited path reaches the depth limit.
+  -- `sim`: the simulation checker tests the limit before it appends the state to the path, so it evaluates
+  -- states whose path has exactly `limit` states; BFS/DFS/on-demand stop one level earlier. Neither goes deeper
+  -- than the limit.
+  | "o-c12-stop", [c, d, ps, early, stateCount, target, depthLimit, maxPathLen, timedOut, sim] => do
+    let sim ← sim.bool?
+    let c ← condOf? c; let d ← d.nats?; let ps ← ps.listOf? propOf?
+    let early ← early.bool?; let stateCount ← stateCount.nat?
+    let target ← SExp.optOf? SExp.nat? target; let depthLimit ← SExp.optOf? SExp.nat? depthLimit
+    let maxPathLen ← maxPathLen.nat?; let timedOut ← timedOut.bool?
+    let finishHolds := (spec c d ps).getD («matches» c d ps)
+    let allDiscovered := ps.all fun p => d.elem p.name
+    let targetReached := match target with | some t => decide (t ≤ stateCount) | none => false
+    let errs : List String :=
+      (if early && !(finishHolds || allDiscovered || targetReached || depthLimit.isSome || timedOut)
+        then ["stopped-early-although-no-configured-condition-holds"] else []) ++
+      (match depthLimit with
+        | some l =>
+          if (if sim then maxPathLen > l else maxPathLen ≥ l) then ["evaluated-a-state-deeper-than-the-depth-limit"] else []
+        | none => [])
+    pure (if errs.isEmpty then "ok" else " ".intercalate errs)
   | _, _ => none
 
 end SR.Drv.C12
